@@ -1,6 +1,7 @@
 import PyPhysim.Proofs.C02Gen
 import PyPhysim.Proofs.C02Complex
 import PyPhysim.Proofs.C02Pair
+import PyPhysim.Proofs.C02Exact
 
 /-!
 # C02 — OFDM round trip, cyclic prefix, guard bands, one-tap equalisation
@@ -433,6 +434,86 @@ theorem pair_queries_pure {α : Type} [Zero α] [Add α] [Mul α] [Div α] [NatC
     (stepPair F Finv sc s .usedIndexes).2 = .ok ((usedIdx s.ofdm.fft s.ofdm.used).map (fun (i : Nat) => (i : α))) ∧
     (stepPair F Finv sc s (.zeropadOf n)).2 = .ok [((zeropad s.ofdm n : Nat) : α), ((numSymbols s.ofdm n : Nat) : α)] :=
   ⟨rfl, rfl, rfl, rfl⟩
+
+/-! ## distinct values that are merely close (R15) -/
+
+/-- **Exact comparison of parameters**: `set_parameters` stores what it accepts unchanged, so two accepted
+    calls leaving the same configuration were given the same values — `(262144, 0, 262142)` and
+    `(262144, 0, 262144)` are different configurations, however small their relative distance. -/
+theorem params_exact_comparison (f c f' c' : Int) (u u' : Option Int) (p : Params)
+    (h : setParameters f c u = .ok p) (h' : setParameters f' c' u' = .ok p) :
+    f = f' ∧ c = c' ∧ u.getD f = u'.getD f' := setParameters_injective f c f' c' u u' p h h'
+
+/-- **A setter called with any new valid value takes effect**: after ANY history, `set_parameters` with a
+    valid triple leaves exactly that triple in the object; if the triple differs from the configuration in
+    force — by however little — the object changes (there is no "unchanged, skip" shortcut in the model). -/
+theorem setter_takes_effect_for_every_new_value {α : Type} [Zero α] [Add α] [Mul α] [Div α] [NatCast α]
+    (F Finv : ℕ → List α → List α) (sc : Params → α) (s : Pair) (ops : List (PairOp α)) (f c : Int)
+    (u : Option Int) (h : ValidInt f c (u.getD f)) :
+    (stepPair F Finv sc (runPair F Finv sc s ops).1 (.setParams f c u)).1
+        = ⟨⟨f.toNat, c.toNat, (u.getD f).toNat⟩⟩ ∧
+    ((runPair F Finv sc s ops).1.ofdm ≠ ⟨f.toNat, c.toNat, (u.getD f).toNat⟩ →
+      (stepPair F Finv sc (runPair F Finv sc s ops).1 (.setParams f c u)).1 ≠ (runPair F Finv sc s ops).1) := by
+  refine ⟨stepPair_set_valid F Finv sc _ f c u h, fun hne heq => hne ?_⟩
+  rw [stepPair_set_valid F Finv sc _ f c u h] at heq
+  rw [← heq]
+
+/-- **The all-subcarriers branch is chosen at exact equality only**: DC (bin 0) carries data iff
+    `used = fft`; `used = fft - 2` at `fft = 2^18` is NOT "all used". -/
+theorem all_used_branch_exact (p : Params) (hp : p.Valid) : 0 ∈ usedIdx p.fft p.used ↔ p.used = p.fft :=
+  zero_mem_usedIdx_iff p hp
+
+/-- **Distinct numbers of used subcarriers give distinct index maps** (same FFT size). -/
+theorem index_map_exact (p q : Params) (hp : p.Valid) (hq : q.Valid)
+    (h : usedIdx p.fft p.used = usedIdx p.fft q.used) : p.used = q.used :=
+  usedIdx_injective p.fft p.used q.used hp.2.2.1 hq.2.2.1 h
+
+/-- **No perturbation of the taps is ignored**: changing the gains `g` to `g + δ` changes the response the
+    equaliser divides by on bin `k` by exactly the response of `δ`; the two channels are indistinguishable
+    on that bin only if the response of `δ` vanishes there exactly (no tolerance, at any magnitude). -/
+theorem freq_response_exact {K : Type} [Field K] (ω : K) (delays : List ℕ) (gains deltas : List K)
+    (hl : gains.length = deltas.length) (k : ℕ) :
+    Hs ω delays (List.zipWith (· + ·) gains deltas) k = Hs ω delays gains k + Hs ω delays deltas k ∧
+    (Hs ω delays (List.zipWith (· + ·) gains deltas) k = Hs ω delays gains k ↔ Hs ω delays deltas k = 0) := by
+  have h := Hs_add ω delays gains deltas hl k
+  refine ⟨h, ?_⟩
+  rw [h]
+  constructor
+  · intro e; exact left_eq_add.mp e.symm
+  · intro e; rw [e, add_zero]
+
+/-! ## argument identity and buffer reuse (R16) -/
+
+section reuse
+variable {α : Type} [Zero α] [Add α] [Mul α] [Div α] [NatCast α]
+
+/-- **A result depends on the contents handed to the call and on the configuration only**: two histories
+    with the same `set_parameters` calls — whatever arrays `modulate`, `demodulate`, `equalize_data` were
+    given in between, in whatever buffers — are followed by the same answer to every operation. (The model
+    has values, not array objects: the identity of an argument cannot matter.) -/
+theorem pair_result_depends_on_contents_only (F Finv : ℕ → List α → List α) (sc : Params → α) (s : Pair)
+    (ops ops' : List (PairOp α)) (h : setOps ops = setOps ops') (op : PairOp α) :
+    (stepPair F Finv sc (runPair F Finv sc s ops).1 op).2
+      = (stepPair F Finv sc (runPair F Finv sc s ops').1 op).2 := by
+  rw [runPair_state_of_setOps F Finv sc s ops ops' h]
+
+/-- **Earlier results are not changed by later calls** (a buffer refilled and handed over again, a later
+    re-configuration): the outputs of a history are a prefix of the outputs of every continuation. -/
+theorem pair_earlier_results_unchanged (F Finv : ℕ → List α → List α) (sc : Params → α) (s : Pair)
+    (ops more : List (PairOp α)) :
+    (runPair F Finv sc s (ops ++ more)).2.take ops.length = (runPair F Finv sc s ops).2 := by
+  rw [runPair_append]
+  simp only
+  rw [← runPair_length F Finv sc s ops, List.take_left]
+
+end reuse
+
+/-- non-vacuity of the R15 statements: two valid triples at relative distance `8e-6`, stored as different
+    configurations; only the second one uses bin 0 -/
+example : ValidInt 262144 0 ((some 262142 : Option Int).getD 262144) ∧ ValidInt 262144 0 ((none : Option Int).getD 262144) ∧
+    setParameters 262144 0 (some 262142) ≠ setParameters 262144 0 none := by
+  unfold ValidInt; decide
+example : 0 ∉ usedIdx 18 16 ∧ 0 ∈ usedIdx 18 18 := by decide
 
 /-- the witness configuration `OFDM(2, 2, 2)`, taps at delays `0` and `2` (memory = cp = fft) -/
 def witnessParams : Params := ⟨2, 2, 2⟩
